@@ -50,7 +50,7 @@ package endpoint
 //@ pred rankOK(m, rk, k) = forall j in 0..k :: rk[j + 1] == rk[j] + (incompleteOld(m, j) ? 1 : 0)
 
 //@ fn (*incomingMW).assemble
-//@   property C31
+//@   property C31 C29
 //@   requires epWF(m)
 //@   witness rank map = rk
 //@   label C31.assemble.rank
@@ -93,7 +93,7 @@ package endpoint
 //@ pred firstNamed(m, t, dst) = rob.portRemote(m.devicePorts[t]) == dst && (forall j in 0..t :: rob.portRemote(m.devicePorts[j]) != dst)
 
 //@ fn (*incomingMW).tryDeliver
-//@   property C31
+//@   property C31 C29
 //@   requires epWF(m)
 //@   panics any
 //@   witness stopAt int = jj
@@ -178,7 +178,7 @@ package endpoint
 //@ pred cumOK(cum, pos, k) = forall n in 0..k :: cum[n + 1] == upd(cum[n], pos[n], cum[n][pos[n]] + 1)
 
 //@ fn (*incomingMW).recv
-//@   property C31
+//@   property C31 C29
 //@   requires epWF(m) && asmCountsOK(m) && m.comp.spec.NumInputChannels < 1<<61
 //@   panics any
 //@   label C31.recv.count
